@@ -597,6 +597,10 @@ def c14(rec):
         minp = pre["params"]["attestMinToPass"]
         if effect and len(done) < minp:
             out.append(V("C14", "effect-without-quorum", f"{k}: effect after {len(done)} distinct signatures, minimum is {minp}", op=k))
+        if key not in forms1 and len(done) < minp:
+            # a form is consumed by the quorum and by nothing else (a consumed form can no longer be
+            # signed: consuming it early cuts the prover's attestation / the reporters' case short)
+            out.append(V("C14", "form-consumed-without-quorum", f"{k}: the form was consumed after {len(done)} distinct signatures, minimum is {minp}", op=k))
         if key in forms1:
             for (a, c0), (a1, c1) in zip(form["attestations"], forms1[key]["attestations"]):
                 if a != a1 or (c1 and not c0 and a != v["creator"]) or (c0 and not c1):
